@@ -344,7 +344,7 @@ func runDTLCP(cfg hsCfg) (cp capture) {
 	ccfg.SessionCache, scfg.SessionCache = cc, sc
 	ccfg.PMTU, scfg.PMTU = cfg.pmtu, cfg.pmtu
 	// no retransmission while a slow peer computes: the capture should be one clean run
-	ccfg.InitialRetransmitTimeout, scfg.InitialRetransmitTimeout = 3*time.Second, 3*time.Second
+	ccfg.InitialRetransmitTimeout, scfg.InitialRetransmitTimeout = 6*time.Second, 6*time.Second
 	var crd, srd *shortReader
 	if cfg.rshort > 0 {
 		crd, srd = &shortReader{chunk: cfg.rshort}, &shortReader{chunk: cfg.rshort}
